@@ -241,6 +241,37 @@ def norm_rules(chk, S, r5):
         r5.require(ok, fname, f"= {T.show(want, 6)}", f"{fname} computes {T.show(got, 7)}; expected {T.show(want, 7)}", where_of(got, "probdiffeq/_probdiffeq/solvers.py"))
         chk.sample({"rule": "R-C07-5", "norm": fname, "normal_form": nf.show(nf.norm(got))})
     S.absorb(it)
+    # error_norm_rms_then_scale takes the norm of the *unscaled* error, and the three factorisations report that error in different multiplicities: the
+    # isotropic model one number per Taylor coefficient, the dense model the same number once per state dimension.  The norm must not see the difference:
+    # for a vector of n equal entries of magnitude N, |x|_p = N n^(1/p), so the normaliser has to be n^(1/p) -- for the requested order p, not only for p = 2.
+    for label, order in (("default order", None), ("requested order p", A("p"))):
+        it2 = S.interp()
+        f = it2.function_value(f"{SOLVERS}.error_norm_rms_then_scale")
+        normalize = it2.call(f, [], {} if order is None else {"norm_order": order}, "<harness>")
+        got = it2.call(normalize, [e, ref], {"atol": atol, "rtol": rtol}, "<harness>")
+        S.absorb(it2)
+        from ..harness import subst
+
+        mapping, sizes = {}, []
+        for x, mag in ((e, A("N_e")), (ref, A("N_ref"))):
+            size = T.mk("attr", (x, "size"))
+            n_atom = A(f"n_{T.atom_name(x)}")
+            sizes.append(n_atom)
+            root = T.mk("np.sqrt", (n_atom,)) if order is None else T.mk("pow", (n_atom, T.mk("div", (1, order))))
+            for vn in [t for t in T.subterms(got) if t.op == "linalg.vector_norm" and t.args and t.args[0] is x]:
+                mapping[vn.uid] = T.mk("mul", (mag, root))
+            mapping[size.uid] = n_atom
+        val = subst(got, mapping)
+        try:
+            free = {b for mono in nf.norm(val) for b, _e in mono if isinstance(b, T.Term)}
+            dep = [n_ for n_ in sizes if any(n_ in list(T.subterms(b)) for b in free)]
+            ok = not dep
+            det = f"for n equal entries the value is {nf.show(nf.norm(val))}"
+        except Exception as ex:  # noqa: BLE001
+            ok, dep, det = None, [], f"normal form not available: {ex}"
+        r5.require(ok, f"error_norm_rms_then_scale does not depend on the multiplicity of equal entries ({label})", "p-norm / n^(1/p): a vector of n equal entries has the norm of one entry",
+                   f"{det}: it depends on the number of entries {[T.atom_name(d_) for d_ in dep]} -- the isotropic model (one error per coefficient) and the dense model (the same error d times) get "
+                   "different acceptance quantities and take different steps", "probdiffeq/_probdiffeq/solvers.py", {"norm_order": "None" if order is None else "p"})
 
 
 def residual_order_rules(chk, S):
